@@ -52,6 +52,14 @@ class SourceFile:
                 continue
             if c == '{':
                 j = match_close(t, m, i)
+                # a braced const-generic ARGUMENT inside an impl header, e.g. `impl<T, const C: u8> Mdd<T, {C}> where .. {`,
+                # is not the item body: it is followed by `>` or `,`
+                k = j + 1
+                while k < n and t[k].isspace():
+                    k += 1
+                if k < n and t[k] in '>,' and re.match(r'\s*(unsafe\s+)?impl\b', t[start:i]):
+                    i = j + 1
+                    continue
                 header = t[start:i]
                 # `macro_rules! name { ... }` and items end at the brace; a trailing ';' is skipped
                 items.append((start, i, j + 1, header))
